@@ -456,6 +456,26 @@ MUTANTS = [
     M("B7-2-factor-3", ["C13"], (CD, "1u64 << (4 * rank_index + suit_index)", "1u64 << (3 * rank_index + suit_index)"), base="B7-2"),
     M("B7-2-swapped", ["C13"], (CD, "1u64 << (4 * rank_index + suit_index)", "1u64 << (4 * suit_index + rank_index)"), base="B7-2"),
     M("benign-D5-5-mask-shift", ["C13"], base="D5-5", benign=True),
+    M("benign-F5-3-own-first-probe", ["C06", "C12"], base="F5-3", benign=True),
+    M("F5-3-skip-second", ["C12"], (HRS, "let probability = self.0.get(&card_pairs.next()?)?;", "let probability = self.0.get(&card_pairs.next()?)?;\n        card_pairs.next();"), base="F5-3"),
+    M("F5-3-any-weight", ["C12"], (HRS, ".all(|cp| self.0.get(&cp) == Some(probability))", ".all(|cp| self.0.get(&cp).is_some())"), base="F5-3"),
+    M("F5-3-suited-twice", ["C12"], (HRS, "RankPair::Ofsuit(high, kicker),\n                ] {", "RankPair::Suited(high, kicker),\n                ] {"), base="F5-3"),
+    M("F5-3-swapped-ranks", ["C12"], (HRS, "RankPair::Ofsuit(high, kicker),\n                ] {", "RankPair::Ofsuit(kicker, high),\n                ] {"), base="F5-3"),
+    M("F5-3-const-weight", ["C12"], (HRS, ".then_some(*probability)", ".then_some(1.0)"), base="F5-3"),
+    M("benign-D4-3-case-array", ["C06", "C12"], base="D4-3", benign=True),
+    M("D4-3-wrong-probe-suit", ["C12"], (HRS, "(Suit::Heart, RankPair::Ofsuit(high, kicker)),", "(Suit::Spade, RankPair::Ofsuit(high, kicker)),"), base="D4-3"),
+    M("benign-F6-4-fresh-iterators", ["C06", "C12"], base="F6-4", benign=True),
+    M("F6-4-skip-first-in-all", ["C12"], (HRS, "rank_pair\n            .into_iter()\n            .all(", "rank_pair\n            .into_iter()\n            .take(3)\n            .all("), base="F6-4"),
+    M("benign-F5-4-carried-weight", ["C06", "C17"], base="F5-4", benign=True),
+    M("F5-4-open-const-rank", ["C06", "C17"], (HRS, "pocket_start = probability.map(|p| (rank, p));", "pocket_start = probability.map(|p| (Rank::Ace, p));"), base="F5-4"),
+    M("F5-4-open-unguarded", ["C06", "C17"], (HRS, "            if pocket_start.is_none() {\n                pocket_start = probability.map(|p| (rank, p));\n            }", "            pocket_start = probability.map(|p| (rank, p));"), base="F5-4"),
+    M("F5-4-close-lt", ["C06", "C17"], (HRS, "probability.unwrap_or(&0_f32) != start_probability {\n                    let prev_rank = rank.prev().unwrap();", "probability.unwrap_or(&0_f32) < start_probability {\n                    let prev_rank = rank.prev().unwrap();"), base="F5-4"),
+    M("F5-4-open-other-weight", ["C06", "C17"], (HRS, "pocket_start = probability.map(|p| (rank, p));", "pocket_start = probability.map(|_| (rank, &1.0_f32));"), base="F5-4"),
+    M("benign-F1-3-flat-map-deck", ["C02", "C08", "C15"], base="F1-3", benign=True),
+    M("F1-3-filter-inverted", ["C02"], (FE, ".filter(|card| !evaluator.board.contains(&Some(*card)))", ".filter(|card| evaluator.board.contains(&Some(*card)))"), base="F1-3"),
+    M("F1-3-no-filter", ["C02"], (FE, "            .filter(|card| !evaluator.board.contains(&Some(*card)))\n", ""), base="F1-3"),
+    M("F1-3-skip-suit", ["C02"], (FE, "SuitRange::all()\n                    .into_iter()\n", "SuitRange::all()\n                    .into_iter()\n                    .skip(1)\n"), base="F1-3"),
+    M("F1-3-same-rank", ["C02"], (FE, ".map(move |suit| Card::new(rank, suit))", ".map(move |suit| Card::new(crate::card::Rank::Ace, suit))"), base="F1-3"),
     M("benign-F3-3-computed-flush-weight", ["C01", "C07", "C08"], base="F3-3", benign=True),
     M("F3-3-unreversed", ["C01", "C07"], (MH, "1 << (12 - u8::from(card.rank()))", "1 << u8::from(card.rank())"), base="F3-3"),
     M("F3-3-off-by-one", ["C01", "C07"], (MH, "1 << (12 - u8::from(card.rank()))", "1 << (13 - u8::from(card.rank()))"), base="F3-3"),
